@@ -168,6 +168,9 @@ func Eval(run *ev.Run, cases []*Case, m Mode, count bool, prop string) ([]Verdic
 			}
 			ex := pgo.ExpectedNil(p, tree, w, pgo.NilRules(c.G, c.Nil))
 			r := o.Results[k]
+			if r.Skipped {
+				continue
+			}
 			if count {
 				run.Eval(1)
 				classify(run, prop, c.Lox, w, ex)
@@ -203,6 +206,9 @@ func Eval(run *ev.Run, cases []*Case, m Mode, count bool, prop string) ([]Verdic
 			if m.Diff {
 				r2 := outs2[i].Results[k]
 				a2, _ := pgo.SplitEvents(r2.Log)
+				if r2.Skipped {
+					continue
+				}
 				if r2.OK != r.OK || r2.Tree != r.Tree || strings.Join(a2, " ") != strings.Join(gotA, " ") || r2.Reads != r.Reads {
 					fail("presence of _onBounds changes the parse: with %v/%s, without %v/%s", r.OK, r.Tree, r2.OK, r2.Tree)
 					break
